@@ -53,8 +53,22 @@ func (e *env) replayReuse(bh Behaviour, r *rand.Rand) bool {
 	// two keys, two messages
 	seeds := [][]byte{nil, randBytes(r, 32), randBytes(r, 32)}
 	msgs := [][]byte{nil, randBytes(r, []int{0, 1, 64, 200}[r.Intn(4)]), randBytes(r, 1+r.Intn(80))}
+	if r.Intn(2) == 0 && len(msgs[1]) > 0 {
+		msgs[2] = randBytes(r, len(msgs[1])) // same length: an in-place overwrite leaves the slice header identical
+	}
 	if bytes.Equal(msgs[1], msgs[2]) {
 		msgs[2] = append(msgs[2], 1)
+	}
+	// buffer reuse: every message travels in ONE caller-owned buffer that is overwritten in place before the call
+	backing := make([]byte, 256)
+	load := func(m int) []byte {
+		copy(backing, msgs[m])
+		return backing[:len(msgs[m])]
+	}
+	intact := func(step int, act string, m int) {
+		if !bytes.Equal(backing[:len(msgs[m])], msgs[m]) {
+			e.violateReuse(bh, step, act+"/modified-caller-message", act+" modified the caller's message buffer", nil)
+		}
 	}
 	refKey := []ed25519.PrivateKey{nil, ed25519.NewKeyFromSeed(seeds[1]), ed25519.NewKeyFromSeed(seeds[2])}
 	// eddsa state
@@ -110,13 +124,15 @@ func (e *env) replayReuse(bh Behaviour, r *rand.Rand) bool {
 			k, m := st.num("key"), st.num("msg")
 			var sg []byte
 			var err error
+			buf := load(m)
 			pm, stack, pan = core.Try(func() {
 				if kind == "eddsa" {
-					sg, err = ed.Sign(clone(msgs[m]))
+					sg, err = ed.Sign(buf)
 				} else {
-					sg, err = sch.Sign(priv[cur], clone(msgs[m]))
+					sg, err = sch.Sign(priv[cur], buf)
 				}
 			})
+			intact(step, act, m)
 			if pan {
 				break
 			}
@@ -163,15 +179,17 @@ func (e *env) replayReuse(bh Behaviour, r *rand.Rand) bool {
 				vm = 3 - sm
 			}
 			got := ""
+			buf := load(vm)
+			sigCopy := clone(lastSig)
 			pm, stack, pan = core.Try(func() {
 				var err error
 				switch {
 				case kind == "eddsa" && r.Intn(2) == 0:
-					err = eddsa.Verify(pubOf(vk), clone(msgs[vm]), clone(lastSig))
+					err = eddsa.Verify(pubOf(vk), buf, lastSig)
 				case kind == "eddsa":
-					err = eddsa.VerifyWithChecks([]byte(refKey[vk].Public().(ed25519.PublicKey)), clone(msgs[vm]), clone(lastSig))
+					err = eddsa.VerifyWithChecks([]byte(refKey[vk].Public().(ed25519.PublicKey)), buf, lastSig)
 				default:
-					err = sch.Verify(pubOf(vk), clone(msgs[vm]), clone(lastSig))
+					err = sch.Verify(pubOf(vk), buf, lastSig)
 				}
 				if err == nil {
 					got = "accept"
@@ -181,6 +199,10 @@ func (e *env) replayReuse(bh Behaviour, r *rand.Rand) bool {
 			})
 			if pan {
 				break
+			}
+			intact(step, act, vm)
+			if !bytes.Equal(sigCopy, lastSig) {
+				e.violateReuse(bh, step, act+"/modified-caller-signature", "Verify modified the caller's signature slice", nil)
 			}
 			exp := st.str("exp")
 			e.cnt.add("reuse:" + exp + ":" + got)
